@@ -240,9 +240,10 @@ static void pert_bytes(Rng& r, u8* a, size_t n, const u8* other) {       // resu
     if (!memcmp(old, a, n)) a[r.below((u32)n)] ^= (u8)(1u << r.below(8));
 }
 
+static std::string thrown_type;
 static bool ask(const PDU& req, const Bytes& pkt, bool& threw) {
     ExactBuf eb(pkt); threw = false;
-    try { return req.matches_response(eb.data(), (u32)pkt.size()); } catch (...) { threw = true; return false; }
+    try { return req.matches_response(eb.data(), (u32)pkt.size()); } catch (...) { threw = true; thrown_type = current_exception_type(); return false; }
 }
 
 // ---- mode "pairs" ---------------------------------------------------------------------------------------------
@@ -267,7 +268,7 @@ static void pairs_case(long idx, Rng& rng) {
 
     auto positive = [&](const Rep& m, const char* what) {
         Bytes pkt = encode(m); bool threw; bool got = ask(*req, pkt, threw); cnt("pos_checks"); cnt(std::string("pos:") + l4name[q.l4]);
-        if (threw) { violation("exception/mirror/" + stack, "matches_response threw " + current_exception_type() + " on " + what + " " + hexfull(pkt)); return false; }
+        if (threw) { violation("exception/mirror/" + stack, "matches_response threw " + thrown_type + " on " + what + " " + hexfull(pkt)); return false; }
         if (!got) { violation("mirror-rejected/" + stack, std::string(what) + " of the request is not recognised: " + hexfull(pkt) + " :: " + show(q)); return false; }
         return true;
     };
@@ -276,7 +277,7 @@ static void pairs_case(long idx, Rng& rng) {
         Bytes pkt = encode(p); bool threw; bool got = ask(*req, pkt, threw);
         if (!must) { cnt("obs:exception-zone:" + field + (got ? ":accepted" : ":rejected")); return; }
         cnt("neg_checks"); cnt("neg:" + field);
-        if (threw) { violation("exception/stranger/" + field + "/" + l3name(q) + "/" + l4name[q.l4], "matches_response threw " + current_exception_type() + " on " + hexfull(pkt)); return; }
+        if (threw) { violation("exception/stranger/" + field + "/" + l3name(q) + "/" + l4name[q.l4], "matches_response threw " + thrown_type + " on " + hexfull(pkt)); return; }
         if (got) violation("stranger-accepted/" + field + "/" + l3name(q) + "/" + l4name[q.l4], "a packet differing from the mirrored reply in " + field + " is recognised as the response: " + hexfull(pkt) + " :: " + show(q));
     };
 
